@@ -312,7 +312,7 @@ impl SvgLexer<'_> {
         if let Some(c) = self.get_byte() {
             if c.is_ascii_lowercase() || c.is_ascii_uppercase() {
                 return Some(c);
-            } else if last_cmd != 0 && (c == b'-' || c == b'.' || c.is_ascii_digit()) {
+            } else if last_cmd != 0 && (c == b'-' || c == b'+' || c == b'.' || c.is_ascii_digit()) {
                 // Plausible number start
                 self.unget();
                 return Some(last_cmd);
